@@ -282,7 +282,7 @@ package message
 //@   loop 1 invariant inv: msgInv(m) && m.buffer == old(m.buffer) && m.stream == old(m.stream) && rdTotal >= old(rdTotal) && viewLen(m) >= old(viewLen(m))
 //@   loop 1 invariant buf_own: ref(m.buffer.buf) == old(ref(m.buffer.buf)) || fresh(m.buffer.buf)
 //@   loop 1 invariant proportional: viewLen(m) - old(viewLen(m)) <= rdTotal - old(rdTotal)
-//@   ensures drained: err == nil ==> viewLen(m) == 0 && m.finished && m.isEOM
+//@   ensures drained: [C02 C01] err == nil ==> viewLen(m) == 0 && m.finished && m.isEOM
 //@   ensures proportional: [C13] err == nil ==> len(result) <= old(viewLen(m)) + (rdTotal - old(rdTotal))
 //@   ensures no_partial: [C02] err != nil ==> result == nil
 //@   ensures inv_kept: msgInv(m)
